@@ -123,6 +123,37 @@ func guardBefore(list []ast.Stmt, cur ast.Node, match, matchNeg func(e ast.Expr)
 		if is, ok := st.(*ast.IfStmt); ok && is.Else == nil && leavesBlock(is.Body.List) && condImplies2(is.Cond, false, match, matchNeg) {
 			return true
 		}
+		// if C1 { …leave } else if C2 { …leave } [else { … }]: the same for an else-if chain
+		if is, ok := st.(*ast.IfStmt); ok && is.Else != nil {
+			for cur := is; cur != nil; {
+				if cur.Init != nil || !leavesBlock(cur.Body.List) {
+					break
+				}
+				if condImplies2(cur.Cond, false, match, matchNeg) {
+					return true
+				}
+				next, _ := cur.Else.(*ast.IfStmt)
+				cur = next
+			}
+		}
+		// switch { case C1: …leave  case C2: …leave  default: … }: after the switch every Ci of the leading run of
+		// leaving clauses is false (a clause that does not leave ends the run: later conditions may not have been tested)
+		if sw, ok := st.(*ast.SwitchStmt); ok && sw.Tag == nil && sw.Init == nil {
+			for _, cl := range sw.Body.List {
+				cc := cl.(*ast.CaseClause)
+				if cc.List == nil {
+					continue
+				}
+				if !leavesBlock(cc.Body) {
+					break
+				}
+				for _, c := range cc.List {
+					if condImplies2(c, false, match, matchNeg) {
+						return true
+					}
+				}
+			}
+		}
 	}
 	return false
 }
